@@ -373,6 +373,73 @@ func c18Commands() []c18Cmd {
 	}
 }
 
+// c18Vary returns a copy of the command whose request FIELDS are generated
+// (everything that does not change which permission the command needs): the
+// decision must not depend on them.
+func c18Vary(rt *rapid.T, base *proto.Command) *proto.Command {
+	c := pb.Clone(base).(*proto.Command)
+	genReq := func(r *command.Request, sql string) *command.Request {
+		if r == nil {
+			r = &command.Request{}
+		}
+		r.Transaction = rapid.Bool().Draw(rt, "f-transaction")
+		r.RollbackOnError = rapid.Bool().Draw(rt, "f-rollback")
+		r.DbTimeout = rapid.SampledFrom([]int64{0, 1000000, 5000000000}).Draw(rt, "f-dbtimeout")
+		n := rapid.IntRange(1, 3).Draw(rt, "f-statements")
+		r.Statements = nil
+		for i := 0; i < n; i++ {
+			r.Statements = append(r.Statements, &command.Statement{Sql: sql})
+		}
+		return r
+	}
+	lvl := func() command.ConsistencyLevel {
+		return command.ConsistencyLevel(rapid.IntRange(0, 4).Draw(rt, "f-level"))
+	}
+	switch {
+	case c.GetExecuteRequest() != nil:
+		er := c.GetExecuteRequest()
+		er.Request = genReq(er.Request, "INSERT INTO t VALUES(1)")
+		er.Timings = rapid.Bool().Draw(rt, "f-timings")
+	case c.GetQueryRequest() != nil:
+		qr := c.GetQueryRequest()
+		qr.Request = genReq(qr.Request, "SELECT * FROM t")
+		qr.Timings = rapid.Bool().Draw(rt, "f-timings")
+		qr.Level = lvl()
+		qr.Freshness = rapid.SampledFrom([]int64{0, 1, 1000000000}).Draw(rt, "f-freshness")
+		qr.FreshnessStrict = rapid.Bool().Draw(rt, "f-strict")
+		qr.LinearizableTimeout = rapid.SampledFrom([]int64{0, 1000000000}).Draw(rt, "f-lin-timeout")
+	case c.GetExecuteQueryRequest() != nil:
+		rr := c.GetExecuteQueryRequest()
+		rr.Request = genReq(rr.Request, "SELECT * FROM t")
+		rr.Timings = rapid.Bool().Draw(rt, "f-timings")
+		rr.Level = lvl()
+		rr.Freshness = rapid.SampledFrom([]int64{0, 1, 1000000000}).Draw(rt, "f-freshness")
+		rr.FreshnessStrict = rapid.Bool().Draw(rt, "f-strict")
+	case c.GetBackupRequest() != nil:
+		br := c.GetBackupRequest()
+		br.Format = command.BackupRequest_Format(rapid.IntRange(0, 3).Draw(rt, "f-format"))
+		br.Vacuum = rapid.Bool().Draw(rt, "f-vacuum")
+		br.Compress = rapid.Bool().Draw(rt, "f-compress")
+		br.Leader = rapid.Bool().Draw(rt, "f-leader")
+		br.Tables = rapid.SliceOfN(rapid.SampledFrom([]string{"t", "u", ""}), 0, 2).Draw(rt, "f-tables")
+	case c.GetLoadRequest() != nil:
+		n := rapid.SampledFrom([]int{0, 20, 4096, 100000}).Draw(rt, "f-load-size")
+		c.GetLoadRequest().Data = append([]byte("SQLite format 3\x00"), bytes.Repeat([]byte{'x'}, n)...)
+	case c.GetRemoveNodeRequest() != nil:
+		c.GetRemoveNodeRequest().Id = rapid.SampledFrom([]string{"n2", "n1", "", "nosuch"}).Draw(rt, "f-id")
+	case c.GetNotifyRequest() != nil:
+		c.GetNotifyRequest().Id = rapid.SampledFrom([]string{"n2", ""}).Draw(rt, "f-id")
+		c.GetNotifyRequest().Address = rapid.SampledFrom([]string{"127.0.0.1:2", ""}).Draw(rt, "f-addr")
+	case c.GetJoinRequest() != nil: // the voter flag selects the permission and stays as it is
+		c.GetJoinRequest().Id = rapid.SampledFrom([]string{"n2", "n9", ""}).Draw(rt, "f-id")
+		c.GetJoinRequest().Address = rapid.SampledFrom([]string{"127.0.0.1:2", "10.0.0.9:4002"}).Draw(rt, "f-addr")
+	case c.GetStepdownRequest() != nil:
+		c.GetStepdownRequest().Wait = rapid.Bool().Draw(rt, "f-wait")
+		c.GetStepdownRequest().Id = rapid.SampledFrom([]string{"n2", ""}).Draw(rt, "f-id")
+	}
+	return c
+}
+
 func c18Sat(m c18Model, creds *proto.Credentials, alts [][]string) bool {
 	u, pw := creds.GetUsername(), creds.GetPassword()
 	for _, conj := range alts {
@@ -480,7 +547,7 @@ func (n *c18Node) stop() {
 
 func TestVerif_C18_InterNode(t *testing.T) {
 	rec := vstat.New(t, "C18", "internode",
-		"rapid draws the TEXT of a credentials file: 0-5 entries over usernames {u1,u2,*} (repeats = redefinitions), each entry with the password key present (p1/p2/'') or absent and the perms key present (all / [] / 1-4 of the 13 documented perms) or absent; the real auth.CredentialsStore loads the text, the oracle evaluates the documented file meaning (absent password = '', absent perms = none, last entry wins); per file EVERY inter-node command type carrying a permission (12 variants incl. JOIN voter/non-voter and two BACKUP_STREAM formats) x 8 credential presentations {none, empty, u1 right/wrong pw, u2 right/wrong pw, unknown user, '*'} is sent on its own raw TCP connection through tcp.Mux and all bytes until close are read; one evaluation = one (file, command, presentation); non-trivial = the file defines at least one user and the decision depends on the presentation (some other presentation of the same command gets the opposite decision); distinct by (file, command, presentation)")
+		"rapid draws the TEXT of a credentials file: 0-5 entries over usernames {u1,u2,*} (repeats = redefinitions), each entry with the password key present (p1/p2/'') or absent and the perms key present (all / [] / 1-4 of the 13 documented perms) or absent; the real auth.CredentialsStore loads the text, the oracle evaluates the documented file meaning (absent password = '', absent perms = none, last entry wins); per file EVERY inter-node command type carrying a permission (12 variants incl. JOIN voter/non-voter and two BACKUP_STREAM entries), each with generated request fields (backup format/vacuum/compress/leader/tables; transaction, timings, level, freshness, statement count; load size; ids, addresses; stepdown wait/target) x 8 credential presentations {none, empty, u1 right/wrong pw, u2 right/wrong pw, unknown user, '*'} is sent on its own raw TCP connection through tcp.Mux and all bytes until close are read; one evaluation = one (file, command, presentation); non-trivial = the file defines at least one user and the decision depends on the presentation (some other presentation of the same command gets the opposite decision); distinct by (file, command, presentation)")
 	cmds := c18Commands()
 	rapid.Check(t, func(rt *rapid.T) {
 		users := c18GenUsers(rt)
@@ -537,7 +604,7 @@ func TestVerif_C18_InterNode(t *testing.T) {
 				}
 				rec.Label("presentation:" + p.Name)
 				node.rec.take()
-				c := cmd.Make()
+				c := c18Vary(rt, cmd.Make())
 				c.Credentials = p.Creds
 				all, xerr := c18Exchange(node.ln.Addr().String(), c)
 				if xerr != nil && len(all) == 0 {
@@ -547,7 +614,11 @@ func TestVerif_C18_InterNode(t *testing.T) {
 				}
 				calls := node.rec.take()
 				actions := c18Actions(calls)
-				desc := fmt.Sprintf("cmd=%s presentation=%s creds=%v file=%s calls=%v received=%d bytes", cmd.Name, p.Name, p.Creds, file, calls, len(all))
+				fields := fmt.Sprintf("%v", c.GetRequest())
+				if len(fields) > 300 {
+					fields = fields[:300] + "..."
+				}
+				desc := fmt.Sprintf("cmd=%s fields={%s} presentation=%s creds=%v file=%s calls=%v received=%d bytes", cmd.Name, fields, p.Name, p.Creds, file, calls, len(all))
 				rec.Sample(desc)
 				if ambiguous {
 					continue
@@ -700,7 +771,7 @@ func TestVerif_C18_InterNodeSeq(t *testing.T) {
 			if it.auth {
 				nAuth++
 			}
-			c := it.cmd.Make()
+			c := c18Vary(rt, it.cmd.Make())
 			c.Credentials = it.pres.Creds
 			wire = append(wire, c)
 			seq = append(seq, it)
